@@ -438,7 +438,10 @@ class FieldValueComponentTimeDelta(FieldValueComponentKeyValueBase):
         if isinstance(value, datetime.timedelta):
             return cls(value)
 
-        return cls(datetime.timedelta(seconds=value))
+        try:
+            return cls(datetime.timedelta(seconds=value))
+        except OverflowError as e:
+            six.raise_from(InvalidValue(value, cls, 'value'), e)
 
     @classmethod
     def _parse_value(cls, parser):
